@@ -15,6 +15,7 @@ import (
 	"git.metabarcoding.org/obitools/obitools4/obitools4/pkg/obiformats"
 	"git.metabarcoding.org/obitools/obitools4/obitools4/pkg/obiiter"
 	"git.metabarcoding.org/obitools/obitools4/obitools4/pkg/obiseq"
+	"git.metabarcoding.org/obitools/obitools4/obitools4/pkg/obiutils"
 
 	"verifharness/internal/fatal"
 	"verifharness/internal/ref"
@@ -37,6 +38,15 @@ type wcase struct {
 	// schedule perturbation for runs with several workers (0 = off)
 	JitterSeed  uint64 `json:"jitter_seed"`
 	JitterMaxUs uint64 `json:"jitter_max_us"`
+	// Lens, when present, gives the length of every record: Lens[k][i] nucleotides
+	// for record i of batch k (len(Lens[k]) == Sizes[k]); SeqLen is then unused.
+	// It is the compact description of histories mixing tiny and huge chunks
+	// (huge_test.go): the sequences are rebuilt from (batch, index, length).
+	Lens [][]int `json:"lens,omitempty"`
+	// Wfile (writer "chunk" only): WriteSeqFileChunk writes into the real
+	// obiutils.CompressStream wrapper (compressed or not) put in front of the
+	// harness stream, as WriteFasta and WriteFastq do, instead of the bare stream.
+	Wfile bool `json:"wfile,omitempty"`
 }
 
 var writers = []string{"fasta", "fastq", "json", "csv", "sequence", "chunk"}
@@ -44,7 +54,27 @@ var writers = []string{"fasta", "fastq", "json", "csv", "sequence", "chunk"}
 func (c wcase) n() int { return len(c.Sizes) }
 
 func (c wcase) key() string {
-	return fmt.Sprint(c.Writer, c.Sizes, c.Arrival, c.Workers, c.Gzip, c.Close, c.SeqLen, c.Qual, c.CSVAuto, c.JitterSeed, c.JitterMaxUs)
+	k := fmt.Sprint(c.Writer, c.Sizes, c.Arrival, c.Workers, c.Gzip, c.Close, c.SeqLen, c.Qual, c.CSVAuto, c.JitterSeed, c.JitterMaxUs)
+	if c.Lens != nil || c.Wfile {
+		k += fmt.Sprint(c.Lens, c.Wfile)
+	}
+	return k
+}
+
+// seqLen is the number of nucleotides of record i of batch b.
+func (c wcase) seqLen(b, i int) int {
+	if c.Lens != nil {
+		return c.Lens[b][i]
+	}
+	return c.SeqLen
+}
+
+// abbr shortens a long text for an error message.
+func abbr(s string) string {
+	if len(s) <= 300 {
+		return s
+	}
+	return fmt.Sprintf("%s…(%d bytes)…%s", s[:120], len(s), s[len(s)-60:])
 }
 
 func (c wcase) validate() error {
@@ -64,8 +94,29 @@ func (c wcase) validate() error {
 			return fmt.Errorf("negative batch size")
 		}
 	}
-	if c.Workers < 1 || c.SeqLen < 1 {
+	if c.Workers < 1 || (c.SeqLen < 1 && c.Lens == nil) {
 		return fmt.Errorf("workers and seqlen must be >= 1")
+	}
+	if c.Lens != nil {
+		if len(c.Lens) != n {
+			return fmt.Errorf("lens describes %d batches, sizes %d", len(c.Lens), n)
+		}
+		for k, ls := range c.Lens {
+			if len(ls) != c.Sizes[k] {
+				return fmt.Errorf("lens[%d] describes %d records, sizes[%d]=%d", k, len(ls), k, c.Sizes[k])
+			}
+			for _, l := range ls {
+				if l < 1 {
+					return fmt.Errorf("record lengths must be >= 1")
+				}
+			}
+		}
+	}
+	if c.Wfile && c.Writer != "chunk" {
+		return fmt.Errorf("wfile is an option of the writer \"chunk\" only")
+	}
+	if c.Gzip && c.Writer == "chunk" && !c.Wfile {
+		return fmt.Errorf("the bare WriteSeqFileChunk does not compress")
 	}
 	ok := false
 	for _, w := range writers {
@@ -116,9 +167,9 @@ func (c wcase) expected() []rec {
 	var out []rec
 	for b, sz := range c.Sizes {
 		for i := 0; i < sz; i++ {
-			r := rec{ID: recID(b, i), Seq: recSeq(b, i, c.SeqLen), Batch: b}
+			r := rec{ID: recID(b, i), Seq: recSeq(b, i, c.seqLen(b, i)), Batch: b}
 			if c.withQual() {
-				q := recQual(b, i, c.SeqLen)
+				q := recQual(b, i, c.seqLen(b, i))
 				for j := range q {
 					q[j] += 33
 				}
@@ -135,14 +186,26 @@ func (c wcase) batch(b int) obiiter.BioSequenceBatch {
 	for i := 0; i < c.Sizes[b]; i++ {
 		var s *obiseq.BioSequence
 		if c.withQual() {
-			s = obiseq.NewBioSequenceWithQualities(recID(b, i), []byte(recSeq(b, i, c.SeqLen)), "", recQual(b, i, c.SeqLen))
+			s = obiseq.NewBioSequenceWithQualities(recID(b, i), []byte(recSeq(b, i, c.seqLen(b, i))), "", recQual(b, i, c.seqLen(b, i)))
 		} else {
-			s = obiseq.NewBioSequence(recID(b, i), []byte(recSeq(b, i, c.SeqLen)), "")
+			s = obiseq.NewBioSequence(recID(b, i), []byte(recSeq(b, i, c.seqLen(b, i))), "")
 		}
 		s.SetAttribute("batch", b)
 		sl = append(sl, s)
 	}
 	return obiiter.MakeBioSequenceBatch("c04", b, sl)
+}
+
+// batchBytes gives, per batch, the number of nucleotides it holds (a lower
+// bound of the size of its formatted chunk).
+func (c wcase) batchBytes() []int {
+	out := make([]int, c.n())
+	for b, sz := range c.Sizes {
+		for i := 0; i < sz; i++ {
+			out[b] += c.seqLen(b, i)
+		}
+	}
+	return out
 }
 
 // chunkText is the payload of chunk b for the direct WriteSeqFileChunk runs.
@@ -151,7 +214,7 @@ func (c wcase) chunkText(b int) string {
 	for i := 0; i < c.Sizes[b]; i++ {
 		sb.WriteString(recID(b, i))
 		sb.WriteByte(' ')
-		sb.WriteString(recSeq(b, i, c.SeqLen))
+		sb.WriteString(recSeq(b, i, c.seqLen(b, i)))
 		sb.WriteByte('\n')
 	}
 	return sb.String()
@@ -281,7 +344,16 @@ func runCase(c wcase) observation {
 
 	if c.Writer == "chunk" {
 		var ch obiformats.ChannelSeqFileChunk
-		if o := fatal.Run(func() { ch = obiformats.WriteSeqFileChunk(out, c.Close) }); !o.Completed {
+		if o := fatal.Run(func() {
+			if c.Wfile {
+				// what WriteFasta / WriteFastq do: the Wfile is always closed by the
+				// chunk writer, and closes the caller's stream only when asked to
+				wf, _ := obiutils.CompressStream(out, c.Gzip, c.Close)
+				ch = obiformats.WriteSeqFileChunk(wf, true)
+			} else {
+				ch = obiformats.WriteSeqFileChunk(out, c.Close)
+			}
+		}); !o.Completed {
 			obs.Stuck = "WriteSeqFileChunk did not return: " + o.String()
 			return obs
 		}
@@ -394,9 +466,9 @@ func sameRecs(format string, got []ref.Rec, want []rec, withQual bool) error {
 		case got[i].ID != want[i].ID:
 			return fmt.Errorf("%s output: record %d is %s, expected %s (batch %d)", format, i, got[i].ID, want[i].ID, want[i].Batch)
 		case got[i].Seq != want[i].Seq:
-			return fmt.Errorf("%s output: record %d (%s) has sequence %q, expected %q", format, i, got[i].ID, got[i].Seq, want[i].Seq)
+			return fmt.Errorf("%s output: record %d (%s) has sequence %q, expected %q", format, i, got[i].ID, abbr(got[i].Seq), abbr(want[i].Seq))
 		case withQual && string(got[i].Qual) != want[i].Qual:
-			return fmt.Errorf("%s output: record %d (%s) has qualities %q, expected %q", format, i, got[i].ID, got[i].Qual, want[i].Qual)
+			return fmt.Errorf("%s output: record %d (%s) has qualities %q, expected %q", format, i, got[i].ID, abbr(string(got[i].Qual)), abbr(want[i].Qual))
 		}
 	}
 	return nil
@@ -411,7 +483,12 @@ func judgeText(c wcase, text []byte) error {
 			sb.WriteString(c.chunkText(b))
 		}
 		if string(text) != sb.String() {
-			return fmt.Errorf("WriteSeqFileChunk output differs from the concatenation of the chunks in increasing order: got %q, expected %q", text, sb.String())
+			exp := sb.String()
+			d := 0
+			for d < len(text) && d < len(exp) && text[d] == exp[d] {
+				d++
+			}
+			return fmt.Errorf("WriteSeqFileChunk output differs from the concatenation of the chunks in increasing order (%d bytes, %d expected, first difference at byte %d): got %q, expected %q", len(text), len(exp), d, abbr(string(text)), abbr(exp))
 		}
 	case "fasta", "fastq", "sequence":
 		format := c.Writer
@@ -458,9 +535,9 @@ func judgeText(c wcase, text []byte) error {
 			case arr[i].ID == nil || *arr[i].ID != want[i].ID:
 				return fmt.Errorf("JSON array: object %d has id %v, expected %s (batch %d)", i, arr[i].ID, want[i].ID, want[i].Batch)
 			case arr[i].Sequence != want[i].Seq:
-				return fmt.Errorf("JSON array: object %d (%s) has sequence %q, expected %q", i, want[i].ID, arr[i].Sequence, want[i].Seq)
+				return fmt.Errorf("JSON array: object %d (%s) has sequence %q, expected %q", i, want[i].ID, abbr(arr[i].Sequence), abbr(want[i].Seq))
 			case c.withQual() && arr[i].Qualities != want[i].Qual:
-				return fmt.Errorf("JSON array: object %d (%s) has qualities %q, expected %q", i, want[i].ID, arr[i].Qualities, want[i].Qual)
+				return fmt.Errorf("JSON array: object %d (%s) has qualities %q, expected %q", i, want[i].ID, abbr(arr[i].Qualities), abbr(want[i].Qual))
 			}
 			if v, ok := arr[i].Annotations["batch"].(float64); !ok || int(v) != want[i].Batch {
 				return fmt.Errorf("JSON array: object %d (%s) has annotation batch=%v, expected %d", i, want[i].ID, arr[i].Annotations["batch"], want[i].Batch)
@@ -491,7 +568,7 @@ func judgeText(c wcase, text []byte) error {
 		idc, ok1 := col["id"]
 		sqc, ok2 := col["sequence"]
 		if !ok1 || !ok2 {
-			return fmt.Errorf("first CSV row %v is not the header (id and sequence columns expected)", rows[0])
+			return fmt.Errorf("first CSV row %s is not the header (id and sequence columns expected)", abbr(fmt.Sprint(rows[0])))
 		}
 		if !c.CSVAuto {
 			if _, ok := col["batch"]; !ok {
@@ -504,11 +581,11 @@ func judgeText(c wcase, text []byte) error {
 			case i >= len(data):
 				return fmt.Errorf("CSV output holds %d data rows, %d expected: record %d (%s, batch %d) is missing", len(data), len(want), i, want[i].ID, want[i].Batch)
 			case i >= len(want):
-				return fmt.Errorf("CSV output holds %d rows after the header, %d expected: extra row %v", len(data), len(want), data[i])
+				return fmt.Errorf("CSV output holds %d rows after the header, %d expected: extra row %s", len(data), len(want), abbr(fmt.Sprint(data[i])))
 			case data[i][idc] != want[i].ID:
-				return fmt.Errorf("CSV row %d is %v, expected record %s (batch %d)", i+1, data[i], want[i].ID, want[i].Batch)
+				return fmt.Errorf("CSV row %d is %s, expected record %s (batch %d)", i+1, abbr(fmt.Sprint(data[i])), want[i].ID, want[i].Batch)
 			case data[i][sqc] != want[i].Seq:
-				return fmt.Errorf("CSV row %d (%s) has sequence %q, expected %q", i+1, want[i].ID, data[i][sqc], want[i].Seq)
+				return fmt.Errorf("CSV row %d (%s) has sequence %q, expected %q", i+1, want[i].ID, abbr(data[i][sqc]), abbr(want[i].Seq))
 			}
 			if bc, ok := col["batch"]; ok && data[i][bc] != fmt.Sprint(want[i].Batch) {
 				return fmt.Errorf("CSV row %d (%s) has batch %q, expected %d", i+1, want[i].ID, data[i][bc], want[i].Batch)
@@ -547,7 +624,7 @@ func judge(c wcase, obs observation) error {
 		return fmt.Errorf("Close was called %d times on the output although CloseFile was not requested", obs.Closes)
 	}
 	text := obs.Out
-	if c.Gzip && c.Writer != "chunk" {
+	if c.Gzip && (c.Writer != "chunk" || c.Wfile) {
 		if len(obs.Out) == 0 && c.emptyTextExpected() {
 			return nil
 		}
@@ -576,8 +653,15 @@ func checkWriterObs(c wcase) (observation, error) {
 	obs := runCase(c)
 	if err := judge(c, obs); err != nil {
 		h := reseqModel(c.Arrival)
-		return obs, fmt.Errorf("%s writer, %d batches with record counts %v pushed in order %v (%d formatting worker(s), gzip=%v, closefile=%v; model: chunks %v wait in the buffer, longest drained run %d): %v\n%s",
-			c.Writer, c.n(), c.Sizes, c.Arrival, c.Workers, c.Gzip, c.Close, h.Buffered, h.MaxDrainRun, err, obs.describe())
+		shape := ""
+		if c.Lens != nil {
+			shape = fmt.Sprintf(", nucleotides per batch %v", c.batchBytes())
+		}
+		if c.Wfile {
+			shape += ", writing through obiutils.CompressStream"
+		}
+		return obs, fmt.Errorf("%s writer, %d batches with record counts %v%s pushed in order %v (%d formatting worker(s), gzip=%v, closefile=%v; model: chunks %v wait in the buffer, longest drained run %d): %v\n%s",
+			c.Writer, c.n(), c.Sizes, shape, c.Arrival, c.Workers, c.Gzip, c.Close, h.Buffered, h.MaxDrainRun, err, obs.describe())
 	}
 	return obs, nil
 }
